@@ -129,6 +129,11 @@ def _real_utils(name, args):
             return ["err"]
         r = [int(v) for v in r]
         return [",".join(str(v) for v in r) if r else "-"]
+    if name == "v2w":
+        from verde import variance_to_weights
+        var = np.array([float("nan") if t == "nan" else float(C.tofrac(t)) for t in args[0].split(",")])
+        r = variance_to_weights(var, tol=float(C.tofrac(args[1])))
+        return [",".join(C.frs(Fraction(float(v))) for v in r)]
     raise KeyError(name)
 
 
@@ -142,7 +147,13 @@ def _differs(kind, a, b):
             if not _same_float(_f(x), y if isinstance(y, float) else _f(y)):
                 return True
         elif kind == "utils":
-            if x != y:
+            if "/" in x + y or "," in x + y:
+                xs, ys = x.split(","), y.split(",")
+                if len(xs) != len(ys) or any(t in ("-", "err") or u in ("-", "err") or
+                                             abs(C.tofrac(t) - C.tofrac(u)) > Fraction(1, 10**12) * max(1, abs(C.tofrac(u))) for t, u in zip(xs, ys)):
+                    if x != y:
+                        return True
+            elif x != y:
                 return True
         else:
             if x in ("true", "false", "err", "ok") or y in ("true", "false", "err", "ok"):
